@@ -693,17 +693,25 @@ def operateTokens (tr : Tr α) (rpn : List Str) (void : Bool) : Res α (Option (
   let r := evalTokens tr rpn void
   (r.1, purge r.2)
 
+/-- `Track.__evaluate` from the rewritten string on: `makeRPN`, `__double_prime`, the stack machine -/
+def evaluateRewritten (tr : Tr α) (s : Str) (void : Bool) : Res α (Option (List α)) :=
+  match makeRPN s with
+  | .error e => (.error e, tr)
+  | .ok rpn0 =>
+    match doublePrime rpn0 with
+    | .error e => (.error e, tr)
+    | .ok rpn => evalTokens tr rpn void
+
+/-- `Track.operate` from the rewritten string on (evaluation, then the purge) -/
+def operateRewritten (tr : Tr α) (s : Str) (void : Bool) : Res α (Option (List α)) :=
+  let r := evaluateRewritten tr s void
+  (r.1, purge r.2)
+
 /-- `Track.__evaluate` -/
 def evaluate (tr : Tr α) (expr : Str) : Res α (Option (List α)) :=
   match preprocess expr with
   | .error e => (.error e, tr)
-  | .ok (s, void) =>
-    match makeRPN s with
-    | .error e => (.error e, tr)
-    | .ok rpn0 =>
-      match doublePrime rpn0 with
-      | .error e => (.error e, tr)
-      | .ok rpn => evalTokens tr rpn void
+  | .ok (s, void) => evaluateRewritten tr s void
 
 /-- `Track.operate(expression)` -/
 def operate (tr : Tr α) (expr : Str) : Res α (Option (List α)) :=
